@@ -221,7 +221,7 @@ def replay(pid, path):
     ctx.set_known(pid)
     try:
         if data.get("case") is not None and data.get("driver"):
-            tf = ctx.drive(data["driver"], [data["case"]], opts=data.get("opts"))
+            tf = ctx.drive(data["driver"], [data["case"]], opts=data.get("opts"), env=data.get("env") or None)
         else:
             tf = ctx.work / "h.ndjson"
             tf.write_text(json.dumps(data["history"]) + "\n")
